@@ -86,7 +86,7 @@ def _environ(accept, extra=()):
 def _observe(fn):
     """run a rendering, canonicalise what happened"""
     try:
-        ctype, body, empty = fn()
+        ctype, header, body, empty = fn()
     except KeyError as e:
         return ('key', e.args[0]) if e.args and isinstance(e.args[0], str) else ('unknown', 'KeyError %r' % (e.args,))
     except ValueError as e:
@@ -96,7 +96,9 @@ def _observe(fn):
     if empty:
         return ('untouched',) if not body else ('unknown', 'untouched response has a body')
     try:
-        return ('ok', ctype if isinstance(ctype, str) else repr(ctype), body.decode('utf-8'))
+        if not isinstance(ctype, str) or not isinstance(header, str):
+            return ('unknown', 'content type %r / header %r' % (ctype, header))
+        return ('ok', ctype, header, body.decode('utf-8'))
     except Exception as e:
         return ('unknown', 'body: %s' % e)
 
@@ -117,7 +119,7 @@ class Prober:
         return type('Probe%d' % self.adhoc, (base,), d)
 
     def probe(self, kind, cls, accept, detail=None, comment=None, explanation=None, body_template=None, headers=(), environ=(),
-              has_body=False, location=None, mode='prepare', cls_name=None, q=None):
+              has_body=False, location=None, mode='prepare', cls_name=None, q=None, ctor_kw=None, after=(), via_code=None):
         HX = self.HX
         rec, pr = _class_record(HX, cls, cls_name)
         self.problems += pr
@@ -126,36 +128,54 @@ class Prober:
             kw['location'] = location
         if body_template is not None:
             kw['body_template'] = body_template
+        kw.update(ctor_kw or {})
         try:
-            exc = cls(detail=detail, comment=comment, headers=[tuple(h) for h in headers] or None, **kw)
+            if via_code is not None:
+                exc = HX.exception_response(via_code, detail=detail, comment=comment, headers=[tuple(h) for h in headers] or None, **kw)
+                if type(exc) is not cls:
+                    raise RuntimeError('exception_response(%r) gave %s' % (via_code, type(exc).__name__))
+            else:
+                exc = cls(detail=detail, comment=comment, headers=[tuple(h) for h in headers] or None, **kw)
             if explanation is not None:
                 exc.explanation = explanation
             if has_body:
                 exc.body = b'already there'
+            for attr, val in after:
+                if val == '<del>':
+                    delattr(exc, attr)
+                else:
+                    setattr(exc, attr, val)
             hdrs = [[k, v] for k, v in exc.headers.items()]
+            has_body = bool(exc.has_body)
         except Exception as e:
             self.problems.append('probe %s/%s: cannot construct: %s' % (kind, rec['name'], e))
             return None
         env = _environ(accept, environ)
-        before = exc.body if has_body else b''
+        before_iter = exc.app_iter
+        before_copy = list(before_iter) if isinstance(before_iter, list) else None
 
         def run():
             if mode == 'prepare':
                 exc.prepare(env)
-                body = exc.body
+                body = b'' if has_body else exc.body
             else:
                 e2 = dict(env)
                 e2.update({'wsgi.version': (1, 0), 'wsgi.url_scheme': 'http', 'wsgi.input': io.BytesIO(b''), 'wsgi.errors': sys.stderr,
                            'wsgi.multithread': False, 'wsgi.multiprocess': False, 'wsgi.run_once': False})
                 body = b''.join(exc(e2, lambda *a, **k: None))
             if has_body:
-                return None, b'' if body == before else b'changed', True
+                same = (exc.app_iter is before_iter and (before_copy is None or list(exc.app_iter) == before_copy)
+                        and [[k, v] for k, v in exc.headers.items()] == hdrs) if mode == 'prepare' else True
+                return None, None, b'' if same else b'changed', True
             if exc.empty_body:
-                return None, body, True
-            return exc.content_type, body, False
+                return None, None, body, True
+            return exc.content_type, exc.headers.get('Content-Type'), body, False
         obs = _observe(run)
+        for attr, val in after:
+            if attr == 'detail': detail = val
+            if attr == 'comment': comment = val
         p = {'kind': kind, 'cls': rec, 'named': cls_name is None and cls.__module__ == HX.__name__ and getattr(HX, cls.__name__, None) is cls,
-             'detail': detail, 'comment': comment, 'explanation': explanation, 'body_template': body_template, 'has_body': has_body,
+             'detail': detail, 'comment': comment, 'explanation': explanation, 'body_template': kw.get('body_template', body_template), 'has_body': has_body,
              'headers': hdrs, 'environ': [[k, v] for k, v in environ] + ([['HTTP_ACCEPT', accept]] if accept is not None else []),
              'q': q if q is not None else _q(accept),
              'observed': obs, 'accept': accept}
@@ -238,6 +258,27 @@ def _probe_all(HX, classes):
         P.probe('custom', c_bad, acc, detail='x', cls_name='P_bad')
     for t in ('${nope}', '${detail} $ 5', '$', '${detail', '$1', '${}', '$ſ', '${K}', '$dEtail', '$_x', '${detail}$$$detail'):
         P.probe('custom', nf, 'text/html', detail='x', body_template=t)
+    # --- the caller-visible constructor surface that survives into prepare()
+    br_cls = HX.HTTPBadRequest
+    settings = [dict(ctor_kw={'content_type': x}) for x in ('text/html', 'application/json', 'text/plain', 'image/png', 'application/xml',
+                                                           'text/plain; charset=latin-1', 'application/json; charset=utf-8', 'TEXT/HTML')]
+    settings += [dict(ctor_kw={'charset': 'latin-1'}), dict(ctor_kw={'charset': None}), dict(ctor_kw={'content_type': 'application/json', 'charset': 'utf-8'}),
+                 dict(headers=[('Content-Type', 'application/json')]), dict(headers=[('content-type', 'image/png; x=1'), ('CONTENT-TYPE', 'text/plain')]),
+                 dict(after=[('content_type', 'application/json')]), dict(after=[('content_type', 'text/plain')]), dict(after=[('charset', 'latin-1')]),
+                 dict(after=[('content_type', '<del>')]), dict(after=[('content_type', 'image/png'), ('charset', 'utf-16')]),
+                 dict(ctor_kw={'body': b'given'}), dict(ctor_kw={'text': 'given'}), dict(ctor_kw={'app_iter': [b'given']}), dict(ctor_kw={'body': b''}),
+                 dict(ctor_kw={'json_body': {'a': 1}}), dict(ctor_kw={'body': b'given', 'content_type': 'application/json'}),
+                 dict(via_code=400, ctor_kw={'content_type': 'text/plain'}), dict(via_code=400, ctor_kw={'content_type': 'application/json'}),
+                 dict(via_code=400), dict(after=[('detail', 'late<'), ('comment', 'late-->')])]
+    for st in settings:
+        for acc in FORMS + ['*/*']:
+            P.probe('ctor', br_cls, acc, detail='D<&', **st)
+    for cls, code, kw in ((nf, 404, {}), (HX.HTTPFound, 302, {'location': '/L<'})):
+        for st in (dict(ctor_kw={'content_type': 'application/json'}), dict(ctor_kw={'content_type': 'text/plain'}),
+                   dict(after=[('content_type', 'application/json')]), dict(via_code=code, ctor_kw={'content_type': 'application/json'}),
+                   dict(headers=[('Content-Type', 'text/plain')])):
+            for acc in FORMS + ['*/*']:
+                P.probe('ctor', cls, acc, detail='D<&', **dict(kw, **st))
     # --- as WSGI application
     for cls in (nf, HX.HTTPFound, HX.HTTPMethodNotAllowed, HX.HTTPNoContent):
         for acc in FORMS:
@@ -265,7 +306,7 @@ def _router_probes(HX, problems):
                 def run():
                     body = b''.join(app(env, lambda s, h, e=None: got.update(h=h)))
                     ct = [v for k, v in got['h'] if k.lower() == 'content-type']
-                    return (ct[0].split(';')[0].strip() if ct else None), body, False
+                    return (ct[0].split(';')[0].strip() if ct else None), (ct[0] if ct else None), body, False
                 out.append({'kind': 'router404', 'cls': rec, 'named': True, 'detail': path, 'comment': None, 'explanation': None,
                             'body_template': None, 'has_body': False, 'headers': [], 'environ': [], 'q': _q(acc), 'observed': _observe(run),
                             'accept': acc})
@@ -413,7 +454,7 @@ def _lobs(o):
     if o[0] == 'invalid':
         return '.errInvalid'
     if o[0] == 'ok':
-        return '.ok %s %s' % (_ltext(o[1]), _ltext(o[2]))
+        return '.ok %s %s %s' % (_ltext(o[1]), _ltext(o[2]), _ltext(o[3]))
     return '.unknown %s' % _lstr(o[1] if len(o) > 1 else '?')
 
 
@@ -469,7 +510,7 @@ def generate(src_root):
           '/-- every class of the module that descends from HTTPException (attributes read from the class objects) -/',
           'def classes : List ClassInfo := [' + ', '.join(table) + ']', '',
           '/-- what the real code did -/',
-          'inductive Observed where', '  | untouched', '  | errKey (name : Text)', '  | errInvalid', '  | ok (ctype body : Text)',
+          'inductive Observed where', '  | untouched', '  | errKey (name : Text)', '  | errInvalid', '  | ok (ctype header body : Text)',
           '  | unknown (why : String)', 'deriving Repr, DecidableEq', '',
           '/-- one probe: a complete input of the model and the observation made on the real code -/',
           'structure RenderProbe where', '  kind : String', '  cls : ClassInfo', '  detail : Option Text', '  comment : Option Text',
@@ -484,10 +525,10 @@ def generate(src_root):
           '', 'end Pyr.Gen.C19', '']
     files = {'PyramidModel/Gen/C19.lean': '\n'.join(L)}
     # the probes, in four modules (built in parallel), each in chunks so that no single definition gets huge
-    groups = {'A': [], 'B': [], 'C': [], 'D': []}
+    groups = {'A': [], 'B': [], 'C': [], 'D': [], 'E': []}
     for i, p in enumerate(f['probes']):
         k = p['kind'].split(':')[0]
-        g = 'A' if k == 'class' and p['q'][0] else 'B' if k == 'class' else 'C' if k == 'ascii' else 'D'
+        g = 'A' if k == 'class' and p['q'][0] else 'B' if k == 'class' else 'C' if k == 'ascii' else 'E' if k == 'ctor' else 'D'
         groups[g].append(i)
     for g, idx in groups.items():
         M = ['import PyramidModel.Gen.C19',
